@@ -41,6 +41,12 @@ def plan(tier, seed):
         fault_sets = [(50, 127), (100, 5), (23, 2), (64, 3), (900, 127), (15, 1), (1000, 64), (200, 10), (8, 127), (7, 127),
                       (1800, 127), (301, 4), (889, 127), (890, 127), (63, 9), (500, 7), (129, 2), (2500, 100), (64, 64)]
     shards = [{"kind": "undisturbed", "lengths": lengths[i::8], "cs": seed * 100 + i} for i in range(8)]
+    # lengths whose *last segment* starts with a byte that is also a legal server command byte (c bit + sequence number
+    # 64..93 = 0xC0..0xDD: block upload initiate / end responses): data segments must be told from them by protocol step,
+    # not by their first byte
+    alias = [7 * sq - n for sq in range(64, 94) for n in range(7)]
+    for i in range(2):
+        shards.append({"kind": "undisturbed", "lengths": alias[i::2], "cs": seed * 100 + 40 + i, "blks": [127, 93], "crcs": [(True, True)]})
     for i, (n, blk) in enumerate(fault_sets):
         for crc in (True, False):
             shards.append({"kind": "fault", "n": n, "blk": blk, "crc": crc, "size_ind": (i + int(crc)) % 2 == 0, "cs": seed * 100 + 50 + i})
@@ -113,8 +119,8 @@ def run(ctx, desc):
 def run_undisturbed(ctx, desc):
     rng = random.Random(repr(("c13u", desc["cs"])))
     for n in desc["lengths"]:
-        for blk in (127, 1, 2, 7, 64, rng.randint(3, 126)):
-            for crc_req, crc_sup in ((True, True), (False, True), (True, False)):
+        for blk in desc.get("blks") or (127, 1, 2, 7, 64, rng.randint(3, 126)):
+            for crc_req, crc_sup in desc.get("crcs") or ((True, True), (False, True), (True, False)):
                 c = {"kind": "undisturbed", "n": n, "blk": blk, "crc": crc_req, "crc_support": crc_sup, "size_ind": rng.random() < 0.6,
                      "style": rng.choice(["all", "raw", "chunks", "chunks", "rawinto"]), "seed": rng.randint(0, 1 << 30),
                      "mux": [rng.choice([0x1F50, 0x2000, 0xFFFF]), rng.choice([0, 1, 255])],
